@@ -32,6 +32,14 @@ StartRemoval(items, key, op) ==
               ELSE [items[j] EXCEPT !.rm = "maybe"]
        ELSE items[j]]
 
+(* a removal operation called after Close was CALLED: once the Processor is stopped Enqueue and Dequeue are no-ops, so the *)
+(* item may or may not be removed / replaced (Close may not have set the flag yet)                                        *)
+MaybeRemoval(items, key) ==
+  [j \in DOMAIN items |->
+     IF items[j].key = key /\ items[j].ex = "no" /\ items[j].rm \in {"none", "inflight"}
+       THEN [items[j] EXCEPT !.rm = "maybe"]
+       ELSE items[j]]
+
 (* ... and RETURNED: an item it surely removed is gone; "early" if it was not yet due *)
 FinishRemoval(items, op, now) ==
   [j \in DOMAIN items |->
